@@ -1307,6 +1307,7 @@ func (x *Exec) enterLoop(fr *Frame, h *ssa.BasicBlock, st *State) *State {
 			// objects existing at loop entry and written only when fresh keep their contents:
 			// (this frame axiom is justified only for heaps whose in-loop writes target
 			// in-loop allocations; see freshOnly)
+			x.keepStable(name, old, nh, topEntry)
 			if !x.freshOnlyWrites(fr, blocks, name) {
 				hs.markDirty(name)
 			} else {
